@@ -157,6 +157,58 @@ func c03Flow(c c03Case) (string, int) {
 	return "", steps
 }
 
+// c03ServerFlow: the same browser flow through the assembled service (real loader, real factory, Check, trigger
+// rules), provider reached over the in-memory network. Real clock: the tail stays far inside the 3600 s lifetime.
+func c03ServerFlow(ans world.Answer, fwd bool, prefix string, rules string, target string) string {
+	f := world.FilterSpec{Name: "a", Realm: "idp-a.test", ClientID: "client-a", Secret: "sa", CookiePrefix: prefix, Forward: fwd, Logout: true}
+	extra := map[string]any{}
+	switch rules {
+	case "include-all":
+		extra["trigger_rules"] = []any{map[string]any{"included_paths": []any{map[string]any{"prefix": "/"}}}}
+	case "exclude-static":
+		extra["trigger_rules"] = []any{map[string]any{"excluded_paths": []any{map[string]any{"prefix": "/static"}, map[string]any{"suffix": ".css"}}}}
+	}
+	sw, err := world.NewSWorld([]world.FilterSpec{f}, extra)
+	if err != nil {
+		return "server-world: " + err.Error()
+	}
+	defer sw.Close()
+	idp := sw.Realms[f.Realm]
+	idp.Mode = ans
+	path := "/a" + target
+	r1 := sw.Do(world.SReq{Tenant: "a", Path: path})
+	if r1.OK || r1.HTTPStatus != 302 || r1.Location == "" {
+		return fmt.Sprintf("no-login-redirect (code=%v http=%d err=%s)", r1.Code, r1.HTTPStatus, r1.Err)
+	}
+	cn := world.CookieName(prefix)
+	sid := ""
+	for _, sc := range r1.SetCookies {
+		if strings.HasPrefix(sc, cn+"=") {
+			sid = strings.SplitN(strings.TrimPrefix(sc, cn+"="), ";", 2)[0]
+		}
+	}
+	idp.RedirectURI = "https://app.test/a/callback"
+	cb, _, aerr := idp.Authorize(r1.Location)
+	if sid == "" || aerr != nil {
+		return fmt.Sprintf("no cookie or provider rejects the authorization request (%v)", aerr)
+	}
+	idp.Mode = ans
+	r2 := sw.Do(world.SReq{Tenant: "a", Path: strings.TrimPrefix(cb, "https://app.test"), Cookies: map[string]string{cn: sid}})
+	if r2.HTTPStatus != 302 || r2.Location != "https://app.test"+path {
+		return fmt.Sprintf("callback answered code=%v http=%d location=%q, first requested %q", r2.Code, r2.HTTPStatus, r2.Location, "https://app.test"+path)
+	}
+	for i := 0; i < 3; i++ {
+		r := sw.Do(world.SReq{Tenant: "a", Path: path, Cookies: map[string]string{cn: sid}})
+		if !r.OK {
+			return fmt.Sprintf("request %d after login answered code=%v http=%d location=%q", i, r.Code, r.HTTPStatus, r.Location)
+		}
+	}
+	if len(idp.AuthzReqs) != 1 {
+		return fmt.Sprintf("%d authorization requests", len(idp.AuthzReqs))
+	}
+	return ""
+}
+
 func c03Shape(c c03Case) string {
 	return fmt.Sprintf("expires_in=%v refresh=%v forward=%v", !c.Answer.NoExpiresIn, !c.Answer.NoRefresh, c.Spec.Forward)
 }
@@ -164,7 +216,7 @@ func c03Shape(c c03Case) string {
 func c03Run(run *ev.Run) {
 	run.Rule = "full product of compliant provider answer shapes (expires_in, refresh token, aud string/array, token_type capitalisation, extra members) x filter configurations (forwarding, cookie prefix, logout, scopes, memory/Redis) x originally requested targets, each driven as a redirect-following browser through the real handler and simulated provider, followed by a tail of requests inside token lifetime; class = (answer shape, config) of completed flows"
 	run.Assumptions = []string{
-		"handler-level flows (Process on per-check handlers); trigger rules and the real loader are exercised by the server-level part of C18/C08",
+		"handler-level flows (Process on per-check handlers) for the full product; a server-level part drives the assembled service (real loader, store factory, Check, trigger rules) for a subset (all answer shapes in thorough)",
 		"token lifetime 60 s virtual; tail advances stay strictly inside it",
 	}
 	answers := c03Answers()
@@ -195,11 +247,53 @@ func c03Run(run *ev.Run) {
 	if int(evals) != total {
 		run.Cap(fmt.Sprintf("%d of %d flows", evals, total))
 	}
-	run.Evals, run.States, run.Transitions, run.Traces = evals, evals, steps, evals
+	// server level: real loader + factory + Check + trigger rules (serial: one in-memory network per process)
+	var srv int64
+	srvAnswers := answers
+	if run.Tier != "thorough" {
+		srvAnswers = nil
+		for i, a := range answers {
+			if i%6 == 0 {
+				srvAnswers = append(srvAnswers, a)
+			}
+		}
+	}
+	for _, a := range srvAnswers {
+		for _, fwd := range []bool{true, false} {
+			for _, rules := range []string{"none", "include-all", "exclude-static"} {
+				for _, tg := range []string{"/app?x=1&y=%2F", "/d%20ir/f"} {
+					if run.Expired() {
+						break
+					}
+					srv++
+					steps += 6
+					if msg := c03ServerFlow(a, fwd, "app1", rules, tg); msg != "" {
+						run.Violation("C03 server-level-flow-does-not-complete rules="+rules+" "+fmt.Sprintf("expires_in=%v refresh=%v forward=%v", !a.NoExpiresIn, !a.NoRefresh, fwd), msg,
+							map[string]any{"level": "server", "answer": a, "forward": fwd, "rules": rules, "target": tg})
+					} else {
+						run.Class(fmt.Sprintf("server|rules=%s|fwd=%v|expires_in=%v|refresh=%v", rules, fwd, !a.NoExpiresIn, !a.NoRefresh))
+					}
+				}
+			}
+		}
+	}
+	run.Evals, run.States, run.Transitions, run.Traces = evals+srv, evals+srv, steps, evals+srv
 	run.Extra["flows"] = total
+	run.Extra["server_level_flows"] = srv
 }
 
 func c03ReplayFn(path string) int {
+	var sv struct {
+		Level   string       `json:"level"`
+		Answer  world.Answer `json:"answer"`
+		Forward bool         `json:"forward"`
+		Rules   string       `json:"rules"`
+		Target  string       `json:"target"`
+	}
+	if _, err := loadReplay(path, &sv); err == nil && sv.Level == "server" {
+		msg := c03ServerFlow(sv.Answer, sv.Forward, "app1", sv.Rules, sv.Target)
+		return replayVerdict("C03", msg != "", msg)
+	}
 	var c c03Case
 	if _, err := loadReplay(path, &c); err != nil {
 		fmt.Println(err)
